@@ -785,3 +785,21 @@ Proof.
   assert (s * y < n) by lia. split; [assumption|].
   destruct (Z.min_spec (s * y + k) n) as [[_ E]|[_ E]]; rewrite E; lia.
 Qed.
+
+(* ======================= softmax: same expression tree as the definition, per-slice maximum ======================= *)
+Lemma upd_upd {A} (l : list A) : forall k a b, upd (upd l k a) k b = upd l k b.
+Proof. induction l as [|h t IH]; intros [|k] a b; cbn [upd]; try reflexivity. now rewrite IH. Qed.
+
+Section SoftmaxProofs.
+Variables (A : Type) (sub div add mx : A -> A -> A) (ex neg : A -> A) (dflt : A).
+Lemma along_upd (x : list Z -> A) shape ax i v : along A x shape ax (upd i ax v) = along A x shape ax i.
+Proof. unfold along. apply map_ext. intros k. now rewrite upd_upd. Qed.
+
+Lemma softmax_structure x shape ax i :
+  softmax_model A sub div add mx ex dflt x shape ax i = softmax_spec A sub div add mx ex dflt x shape ax i.
+Proof.
+  unfold softmax_model, softmax_spec, reduce_keep, bcast_keep.
+  rewrite !along_upd. f_equal. f_equal. unfold along at 1. apply map_ext. intros k.
+  now rewrite upd_upd, along_upd.
+Qed.
+End SoftmaxProofs.
